@@ -8,6 +8,7 @@ pub mod c12;
 pub mod c13;
 pub mod c15;
 pub mod c16;
+pub mod c17;
 
 use crate::monitor::{Config, Local};
 use serde_json::Value;
@@ -27,6 +28,7 @@ pub fn dispatch(prop: &str) -> Option<(RunFn, ReplayFn)> {
         "C13" => (c13::run, c13::replay),
         "C15" => (c15::run, c15::replay),
         "C16" => (c16::run, c16::replay),
+        "C17" => (c17::run, c17::replay),
         _ => return None,
     })
 }
